@@ -215,6 +215,23 @@ def check(prog, rep, tier):
                     expected='the counters in every state', key='rest-route')
         else:
             rep.ok('R18.c', 'rest-route', file=f_.file, line=f_.node.lineno, found=decs)
+    # one message per counted write: nothing joins several messages into one send_bin_update / transport write
+    joined = []
+    for mname, mf in bgp.methods.items():
+        for n in ast.walk(mf.node):
+            if isinstance(n, ast.Call) and (src_of(n.func).endswith(('send_bin_update', 'write_tcp_thread', 'transport.write'))
+                                             or (src_of(n.func).endswith('callFromThread') and len(n.args) > 1)):
+                for a_ in n.args:
+                    if '.join(' in common.unalias(mf.node, a_):
+                        joined.append((mf, n, a_))
+    if joined:
+        mf, n, a_ = joined[0]
+        rep.bad('R18.a', 'one-message-per-write', file=mf.file, line=n.lineno, func=mf.qualname,
+                found='%s is given %s: several messages go out in one write that is counted as one message'
+                      % (src_of(n.func), common.unalias(mf.node, a_)[:60]),
+                expected='one message per send call', key='one-message-per-write')
+    else:
+        rep.ok('R18.a', 'one-message-per-write', file=bgp.module.relpath)
     # request-driven sends count after the write: if building the message fails (a field out of range), nothing was
     # sent and nothing may have been counted
     for meth in ('send_update', 'send_bin_update', 'send_route_refresh'):
